@@ -4,6 +4,7 @@ import (
 	"context"
 	"fmt"
 	"regexp"
+	"runtime"
 	"strconv"
 	stdsync "sync"
 	"testing"
@@ -550,6 +551,9 @@ func (h *harness) run() {
 	if sc.Cfg("scale_epilogue", 0) == 2 && h.epilogue == "" {
 		h.manyConsumers()
 	}
+	if sc.Cfg("cache_epilogue", 0) == 1 && h.epilogue == "" {
+		h.cacheBehindDelivery()
+	}
 	h.mu.Lock()
 	h.done = true
 	h.mu.Unlock()
@@ -561,6 +565,87 @@ func (h *harness) setEpilogue(check, format string, a ...any) {
 		h.epilogue = check + "|" + fmt.Sprintf(format, a...)
 	}
 	h.mu.Unlock()
+}
+
+// gated is a consumer that is slow at taking an envelope: Put signals that it
+// was entered and returns only when the gate is opened.
+type gated struct {
+	sync.Closer
+	got
+	entered, release chan struct{}
+}
+
+func (g *gated) Put(e *wire.Envelope) {
+	t, _ := tagOf(e)
+	select {
+	case g.entered <- struct{}{}:
+	default:
+	}
+	<-g.release
+	g.add(t)
+}
+
+// cacheBehindDelivery is an epilogue on a relay of its own: while an envelope
+// is being handed to a slow consumer (the relay is busy), another thread
+// enables a caching predicate and, after Cache has returned, puts an envelope
+// that only this predicate matches. A consumer subscribing afterwards must
+// get it, once, and it must not have reached the default handler. The waiting
+// uses neither the clock nor quiescence: a thread blocked in the relay's own
+// standard mutex is not blocked in the eyes of the simulated clock (rule R3).
+func (h *harness) cacheBehindDelivery() {
+	relay := wire.NewRelay()
+	var dflt got
+	relay.SetDefaultMsgHandler(func(e *wire.Envelope) { t, _ := tagOf(e); dflt.add(t) })
+	g := &gated{entered: make(chan struct{}, 1), release: make(chan struct{})}
+	if relay.Subscribe(g, classPred(1)) != nil {
+		return
+	}
+	h.s.Count("fault.cache_enabled_behind_slow_delivery", 1)
+	p1 := make(chan struct{})
+	go func() {
+		defer close(p1)
+		relay.Put(newEnvelope(0, 0))
+	}()
+	<-g.entered
+	late := classPred(2)
+	cDone := make(chan struct{})
+	go func() {
+		defer close(cDone)
+		relay.Cache(&late)
+		relay.Put(newEnvelope(1, 1))
+	}()
+	for i, fin := 0, false; i < 4000 && !fin; i++ {
+		runtime.Gosched()
+		select {
+		case <-cDone:
+			fin = true
+		default:
+		}
+	}
+	close(g.release)
+	<-p1
+	<-cDone
+	rec := &recorder{}
+	if relay.Subscribe(rec, late) != nil {
+		return
+	}
+	time.Sleep(5 * time.Millisecond)
+	rec.mu.Lock()
+	n := 0
+	for _, t := range rec.tags {
+		if t == 1 {
+			n++
+		}
+	}
+	rec.mu.Unlock()
+	dflt.mu.Lock()
+	nd := len(dflt.tags)
+	dflt.mu.Unlock()
+	if n != 1 || nd != 0 {
+		h.setEpilogue("C18.lost-envelope@cache-behind-delivery", "a caching predicate was enabled while another envelope was being delivered to a slow consumer; the envelope put after Cache had returned reached the later subscriber %d times and the default handler %d times", n, nd)
+		return
+	}
+	_ = relay.Close()
 }
 
 // bigCache is an epilogue on a relay of its own: with a caching predicate
